@@ -16,7 +16,9 @@ def sels_for(nf, names):
     out += [{"t": "int", "v": -1}, {"t": "name", "v": list(names)[-1]},
             {"t": "slice", "v": [None, None, None]}, {"t": "slice", "v": [1, None, None]},
             {"t": "slice", "v": [None, None, 2]}, {"t": "slice", "v": [1, nf, 2]},
-            {"t": "list", "v": list(range(nf))}, {"t": "list", "v": [nf - 1]}]
+            {"t": "list", "v": list(range(nf))}, {"t": "list", "v": [nf - 1]},
+            # slice bounds beyond the field count are clamped, not wrapped
+            {"t": "slice", "v": [-nf - 3, None, None]}, {"t": "slice", "v": [-nf - 1, nf + 4, None]}, {"t": "slice", "v": [None, nf + 2, None]}]
     if nf >= 3:
         out += [{"t": "list", "v": [0, nf - 1]}, {"t": "slice", "v": [1, -1, None]}, {"t": "ndarray", "v": [1, 2]}]
     out = [dict(s, promised=True) for s in out if selectors.must_honour_field(s, nf, names)]
@@ -33,6 +35,8 @@ def sels_for(nf, names):
                   {"t": "list", "v": [-3, -2, -1]}, {"t": "names", "v": [nl[1], nl[0], nl[2]]}]
     if nf >= 4:
         extra += [{"t": "list", "v": [0, 2, 1, 3]}, {"t": "list", "v": [1, 3, 3, 3][: nf]}, {"t": "names", "v": [nl[0], nl[2], nl[1], nl[3]]}]
+    # empty selections (numpy: no component): a refusal or boxes without components, never other components
+    extra += [{"t": "slice", "v": [None, -nf - 2, None]}, {"t": "slice", "v": [nf + 1, None, None]}]
     for s in extra:
         if selectors.meaning(s, nf, names) is not None and not selectors.must_honour_field(s, nf, names):
             out.append(dict(s, promised=False))
@@ -145,6 +149,10 @@ def run(ctx, rep, model=True):
     for i in range(n):
         spec = plotgen.random_spec(ctx.rng, ndims=[3, 2][i % 2], nf=[3, 2, 4, 1][i % 4], data="bits", B=2,
                                    layout=["scatter", "files", "perm"][i % 3])
+        # index space reaching below zero (the domain's first cell has a negative index; its last one stays >= 0, which is
+        # all the reader's own grid bookkeeping - not under test here - can cope with)
+        spec["idx_shift"] = -ctx.rng.randint(1, min(spec["grid0"]) - 1) if (i % 5 in (2, 4) and min(spec["grid0"]) >= 2) else 0
+        if spec["idx_shift"]: rep.count("negative-indices")
         run_spec(ctx, rep, spec, model, orders_for(ctx))
         if len(rep.violations) >= 10:
             return
